@@ -64,11 +64,11 @@ func (k Kind) MapKeyOK() bool {
 type Card int
 
 const (
-	Implicit  Card = iota // proto3 singular without presence
-	Optional              // proto2 optional / proto3 optional: explicit presence
-	Required              // proto2 required
-	RepPacked             // repeated, packed
-	RepUnpacked           // repeated, one key per element
+	Implicit    Card = iota // proto3 singular without presence
+	Optional                // proto2 optional / proto3 optional: explicit presence
+	Required                // proto2 required
+	RepPacked               // repeated, packed
+	RepUnpacked             // repeated, one key per element
 	OneofMember
 	Map
 )
@@ -92,13 +92,24 @@ type Message struct {
 	Fields []Field
 	Oneofs []string
 	Nested []*Message // nested type definitions (besides map entries)
+	// proto2 extensions: ExtRange declares "extensions 100 to max"; Extends are "extend <Extendee> { ... }"
+	// blocks written inside this message (the only place the plug-in looks for them)
+	ExtRange bool
+	Extends  []Ext
+}
+
+// Ext is one extension field declaration; Card is Optional or RepUnpacked / RepPacked.
+type Ext struct {
+	Extendee string
+	Field
 }
 
 type File struct {
 	Base     string // file base name == Go package name; unique in the corpus
 	Proto2   bool
 	Messages []*Message
-	Enum     bool // declares enum "E" {E0=0; E1=1; E2=2; EN=-1; EBIG=2147483647}
+	FileExts []Ext // extensions declared at file scope
+	Enum     bool  // declares enum "E" {E0=0; E1=1; E2=2; EN=-1; EBIG=2147483647}
 	// GoogleOnly: uses proto3 optional fields, which gogo/protobuf 1.3.2's generator does not support
 	// (it renders them as oneofs), so there are no gogo base types to attach fast-marshal code to
 	GoogleOnly bool
@@ -197,11 +208,63 @@ func (f *File) messageProto(m *Message) *descriptorpb.DescriptorProto {
 		dp.Field = append(dp.Field, fp)
 	}
 	_ = nReal
+	if m.ExtRange {
+		dp.ExtensionRange = append(dp.ExtensionRange, &descriptorpb.DescriptorProto_ExtensionRange{Start: proto.Int32(100), End: proto.Int32(536870912)})
+	}
+	for _, x := range m.Extends {
+		dp.Extension = append(dp.Extension, f.extProto(x))
+	}
 	for _, n := range m.Nested {
 		np := f.messageProto(n)
 		dp.NestedType = append(dp.NestedType, np)
 	}
 	return dp
+}
+
+func (f *File) extProto(x Ext) *descriptorpb.FieldDescriptorProto {
+	fp := &descriptorpb.FieldDescriptorProto{
+		Name:     proto.String(x.Name),
+		Number:   proto.Int32(x.Num),
+		Type:     kindType[x.Kind].Enum(),
+		Label:    descriptorpb.FieldDescriptorProto_LABEL_OPTIONAL.Enum(),
+		Extendee: proto.String("." + f.ProtoPackage() + "." + x.Extendee),
+	}
+	switch x.Kind {
+	case KEnum:
+		fp.TypeName = proto.String("." + f.ProtoPackage() + ".E")
+	case KMessage:
+		fp.TypeName = proto.String("." + f.ProtoPackage() + "." + x.Msg)
+	}
+	if x.Card == RepPacked || x.Card == RepUnpacked {
+		fp.Label = descriptorpb.FieldDescriptorProto_LABEL_REPEATED.Enum()
+		if x.Kind.Packable() {
+			fp.Options = &descriptorpb.FieldOptions{Packed: proto.Bool(x.Card == RepPacked)}
+		}
+	}
+	return fp
+}
+
+// ExtsOf lists the extensions of message name (proto-relative) declared in this file, in the order the
+// plug-in emits them: file scope first, then the messages breadth first.
+func (f *File) ExtsOf(name string) []Ext {
+	var out []Ext
+	for _, x := range f.FileExts {
+		if x.Extendee == name {
+			out = append(out, x)
+		}
+	}
+	queue := append([]*Message{}, f.Messages...)
+	for len(queue) > 0 {
+		m := queue[0]
+		queue = queue[1:]
+		for _, x := range m.Extends {
+			if x.Extendee == name {
+				out = append(out, x)
+			}
+		}
+		queue = append(queue, m.Nested...)
+	}
+	return out
 }
 
 // Descriptor renders the file.  Nested message definitions are referenced as "Outer.Inner".
@@ -228,6 +291,9 @@ func (f *File) Descriptor() *descriptorpb.FileDescriptorProto {
 	}
 	for _, m := range f.Messages {
 		fd.MessageType = append(fd.MessageType, f.messageProto(m))
+	}
+	for _, x := range f.FileExts {
+		fd.Extension = append(fd.Extension, f.extProto(x))
 	}
 	return fd
 }
@@ -307,6 +373,45 @@ func Matrix() []*File {
 				{Name: "p_int", Num: 3, Kind: KInt32, Card: OneofMember, Oneof: 0},
 				{Name: "y", Num: 4, Kind: KInt64, Card: Optional}}})
 			files = append(files, rq)
+		}
+		if p2 {
+			// proto2 extensions declared inside a top-level message (what the plug-in supports), message-typed
+			ex := &File{Base: "p2ext", Proto2: true, Enum: true}
+			ex.Messages = append(ex.Messages,
+				&Message{Name: "Leaf", Fields: append([]Field{}, leaf.Fields...)},
+				&Message{Name: "Base", ExtRange: true, Fields: []Field{{Name: "id", Num: 1, Kind: KInt64, Card: Optional}, {Name: "name", Num: 2, Kind: KString, Card: Optional}}},
+				&Message{Name: "Exts", Fields: []Field{{Name: "z", Num: 1, Kind: KInt32, Card: Optional}, {Name: "b", Num: 2, Kind: KMessage, Card: Optional, Msg: "Base"}},
+					Extends: []Ext{
+						{Extendee: "Base", Field: Field{Name: "leaf_ext", Num: 100, Kind: KMessage, Card: Optional, Msg: "Leaf"}},
+						{Extendee: "Base", Field: Field{Name: "self_ext", Num: 2047, Kind: KMessage, Card: Optional, Msg: "Base"}},
+					}})
+			files = append(files, ex)
+			// scalar extensions (kinds whose generated code compiles)
+			xs := &File{Base: "p2extscalar", Proto2: true, Enum: true}
+			xs.Messages = append(xs.Messages,
+				&Message{Name: "Base", ExtRange: true, Fields: []Field{{Name: "id", Num: 1, Kind: KInt64, Card: Optional}}},
+				func() *Message {
+					// one optional extension of every scalar kind and of the enum
+					m := &Message{Name: "Exts"}
+					for k := Kind(0); k < NKinds; k++ {
+						if k == KMessage {
+							continue
+						}
+						m.Extends = append(m.Extends, Ext{Extendee: "Base", Field: Field{Name: "x_" + k.String(), Num: 100 + int32(k), Kind: k, Card: Optional}})
+					}
+					return m
+				}())
+			files = append(files, xs)
+			// placements and cardinalities beyond "optional, inside a top-level message"
+			xm := &File{Base: "p2extmore", Proto2: true,
+				FileExts: []Ext{{Extendee: "Base", Field: Field{Name: "file_level", Num: 200, Kind: KInt32, Card: Optional}}}}
+			xm.Messages = append(xm.Messages,
+				&Message{Name: "Base", ExtRange: true, Fields: []Field{{Name: "id", Num: 1, Kind: KInt64, Card: Optional}}},
+				&Message{Name: "Exts", Extends: []Ext{
+					{Extendee: "Base", Field: Field{Name: "x_rep", Num: 100, Kind: KInt32, Card: RepUnpacked}},
+					{Extendee: "Base", Field: Field{Name: "x_reps", Num: 101, Kind: KString, Card: RepUnpacked}}},
+					Nested: []*Message{{Name: "Deep", Extends: []Ext{{Extendee: "Base", Field: Field{Name: "deep_level", Num: 300, Kind: KInt32, Card: Optional}}}}}})
+			files = append(files, xm)
 		}
 		// oneofs
 		oo := &File{Base: pre + "oneof", Proto2: p2, Enum: true}
@@ -434,6 +539,14 @@ func (f *File) SchemaTerm() string {
 			}
 			fs = append(fs, fmt.Sprintf("%d,%s,%s", fd.Num, kind, card))
 		}
+		// the extensions the generated code handles behave as optional fields of the extended message
+		for _, x := range f.ExtsOf(n) {
+			kind := x.Kind.String()
+			if x.Kind == KMessage {
+				kind = fmt.Sprintf("msg%d", idx[x.Msg])
+			}
+			fs = append(fs, fmt.Sprintf("%d,%s,%s", x.Num, kind, cardCode[x.Card]))
+		}
 		parts = append(parts, fmt.Sprintf("%d=%s:%s", i, syn, strings.Join(fs, ";")))
 	}
 	return strings.Join(parts, "|")
@@ -462,6 +575,13 @@ func Extra() []*File {
 	out = append(out, &File{Base: "xsizefield", ParamV1: "specialname=Size", Messages: []*Message{
 		{Name: "Sized", Fields: []Field{{Name: "size", Num: 1, Kind: KInt32, Card: Implicit}, {Name: "name", Num: 2, Kind: KString, Card: Implicit}}},
 	}})
+	// extension kinds and placements beyond the two matrix files
+	out = append(out, &File{Base: "xextrepeated", Proto2: true, Messages: []*Message{
+		{Name: "Base", ExtRange: true, Fields: []Field{{Name: "id", Num: 1, Kind: KInt64, Card: Optional}}},
+		{Name: "Exts", Extends: []Ext{{Extendee: "Base", Field: Field{Name: "x_r", Num: 100, Kind: KInt32, Card: RepUnpacked}}}}}})
+	out = append(out, &File{Base: "xextfile", Proto2: true, Messages: []*Message{
+		{Name: "Base", ExtRange: true, Fields: []Field{{Name: "id", Num: 1, Kind: KInt64, Card: Optional}}}},
+		FileExts: []Ext{{Extendee: "Base", Field: Field{Name: "file_level", Num: 100, Kind: KInt32, Card: Optional}}}})
 	// deep nesting of definitions, snake and camel names, a message named like a Go keyword-ish identifier
 	out = append(out, &File{Base: "xnames", Proto2: true, Messages: []*Message{
 		{Name: "snake_case_msg", Fields: []Field{{Name: "some_field_name", Num: 1, Kind: KInt32, Card: Optional}, {Name: "URL", Num: 2, Kind: KString, Card: Optional}}},
